@@ -19,7 +19,7 @@ def run(ctx):
     add('d2.h2.n2.k-1..2', D(2, 2, 2, 0), [-3, -1, -9, 0, 2, 0], 240, 'height 2: every leaf is its own periodic neighbour')
     add('d2.h3.n2.k-1..1.box1', D(2, 3, 2, 1, BOX=1), [-2, -1, -9, 0, 1, 0], 240, 'per-dimension box widths')
     add('d3.h2.n2.k-1..2', D(3, 2, 2, 1), [-2, -1, -9, 0, 2, 0], 240, '')
-    add('d3.h3.n2.k1', D(3, 3, 2, 1), [2, 0, 1, 0, 0, 0], 300, 'every pair of leaves of the 4x4x4 grid, one extra level')
+    add('d3.h3.n1.k-1..2', D(3, 3, 1, 1), [1, -1, -9, 0, 2, 0], 300, 'a single particle in every leaf of the 4x4x4 grid: it interacts with its own images only')
     if not q:
         add('d1.h3.n3.k-1..5', D(1, 3, 3, 0), [-3, -1, -9, 0, 5, 0], 2400, '')
         add('d1.h5.n2.k-1..5', D(1, 5, 2, 1), [-3, -1, -9, 0, 5, 0], 1800, '')
